@@ -499,6 +499,43 @@ class World:
         self.inflight_mt = self.max_inflight_mt = 0
         self.op_attempts = {}
 
+    # -- transform_physical callbacks ---------------------------------------
+    def transform(self, kind):
+        """A transform_physical callback. kind: None | 'copy' | 'copy_add' | 'copy_wrap' | 'inplace_add' |
+        'inplace_wrap'.  'copy*' return a NEW plan (plan.copy()), 'inplace*' edit the plan they are given;
+        '*add' adds one unconnected marker call (logged as call 'xf'), '*wrap' wraps the output node in a
+        call (logged as 'xw') and redirects the output to it."""
+        if not kind:
+            return None
+        world = self
+
+        def xf():
+            world.log("start", "xf")
+            world.pause("call")
+            world.log("end", "xf")
+            return "xf"
+
+        def xw(x):
+            world.log("start", "xw")
+            world.pause("call")
+            world.log("end", "xw")
+            return ("wrapped", x)
+
+        for f in (xf, xw):
+            f.__module__ = "harness"
+            f.__qualname__ = f.__name__
+
+        def tf(plan, node):
+            p = plan if kind.startswith("inplace") else plan.copy()
+            with p.scope("xfs"):
+                if kind.endswith("add"):
+                    p.call(xf)
+                if kind.endswith("wrap") and node is not None:
+                    node = p.call(xw, node)
+            return p, node
+
+        return tf
+
     # -- running ------------------------------------------------------------
     def output_obj(self, out):
         if out is None:
